@@ -2,6 +2,7 @@
 import numpy as np
 
 from .. import psd_util as pu
+from .. import gen
 from ..core import Fail, Skip, oracle
 from ..lean import cbits, fbits, parse_complex, run_driver
 
@@ -110,16 +111,20 @@ def _per_matrix_err(got, ref):
 
 # ----------------------------------------------------------------------------- oracles on the real code
 @oracle
-def psd_is_defining_sum(observation, mask, sensor_dim, source_dim, time_dim, normalize):
-    """value, shape, Hermitian, positive semidefinite, zero mask -> zero, caller arrays untouched"""
+def psd_is_defining_sum(observation, mask, sensor_dim, source_dim, time_dim, normalize, memory='c'):
+    """value, shape, Hermitian, positive semidefinite, zero mask -> zero, caller arrays untouched;
+    `memory`: memory layout of the caller's arrays (harness/gen.relayout)"""
     why = _in_domain(observation, mask, sensor_dim, source_dim, time_dim)
     if why:
         return Skip(why)
-    obs0, mask0 = observation.copy(), (None if mask is None else mask.copy())
+    if memory != 'c':
+        observation = gen.relayout(observation, memory)
+        mask = None if mask is None else gen.relayout(mask, memory)
+    obs0, mask0 = np.array(observation, order='C'), (None if mask is None else np.array(mask, order='C'))
     got = PSD(observation, mask, sensor_dim=sensor_dim, source_dim=source_dim, time_dim=time_dim, normalize=normalize)
-    if observation.tobytes() != obs0.tobytes() or observation.shape != obs0.shape:
+    if np.array(observation, order='C').tobytes() != obs0.tobytes() or observation.shape != obs0.shape:
         return Fail('observation-modified', 'the caller\'s observation array was changed by the call')
-    if mask is not None and (mask.tobytes() != mask0.tobytes() or mask.dtype != mask0.dtype):
+    if mask is not None and (np.array(mask, order='C').tobytes() != mask0.tobytes() or mask.dtype != mask0.dtype):
         return Fail('mask-modified', 'the caller\'s mask array was changed by the call')
     ref, kpos = _expected(obs0, mask0, sensor_dim, source_dim, time_dim, normalize)
     got = np.asarray(got)
@@ -223,13 +228,15 @@ def psd_boolean_equals_float(observation, mask, sensor_dim, source_dim, time_dim
 
 
 @oracle
-def condition_covariance_formula(psd, gamma, hermitian_psd):
-    """(Phi + gamma tr(Phi)/D I)/(1+gamma) per leading index; trace, Hermitian symmetry, PSD-ness preserved"""
+def condition_covariance_formula(psd, gamma, hermitian_psd, memory='c'):
+    """(Phi + gamma tr(Phi)/D I)/(1+gamma) per leading index; trace, Hermitian symmetry, PSD-ness preserved;
+    `memory`: memory layout of the caller's array (harness/gen.relayout)"""
     if gamma < 0:
         return Skip('gamma < 0')
-    p0 = psd.copy()
+    psd = gen.relayout(psd, memory)
+    p0 = np.array(psd, order='C')
     got = np.asarray(bfm.condition_covariance(psd, gamma))
-    if psd.tobytes() != p0.tobytes():
+    if np.array(psd, order='C').tobytes() != p0.tobytes():
         return Fail('input-modified', 'condition_covariance changed the caller\'s array')
     if got.shape != p0.shape:
         return Fail('shape', f'shape {got.shape} != {p0.shape}')
@@ -330,8 +337,10 @@ def search(ctx):
         ctx.count(f'search-psd-nlead:{len(case["lead"])}')
         ctx.count(f'search-psd-normalize:{normalize}')
         ctx.count('search-psd-layout:' + ('default' if lay == (case['n'] - 2, case['n'] - 2, case['n'] - 1) else 'other'))
+        memory = 'c' if rng.random() < 0.6 else str(rng.choice(gen.MEMORY_KINDS))
+        ctx.count(f'search-psd-memory:{memory}')
         ok = ctx.run(psd_is_defining_sum, observation=obs, mask=mask, sensor_dim=sd, source_dim=so, time_dim=td,
-                     normalize=normalize)
+                     normalize=normalize, memory=memory)
         if i < 3:
             ctx.sample({'oracle': 'psd_is_defining_sum', 'obs_shape': list(obs.shape),
                         'mask': None if mask is None else [list(mask.shape), str(mask.dtype), case['mkind']],
@@ -389,7 +398,9 @@ def search(ctx):
             phi = pu.cnormal(rng, lead + (D, D))
         gamma = float(rng.choice([0.0, 1e-6, 0.01, 0.5, 1.0, 10.0])) if rng.random() < 0.5 else float(10.0 ** rng.uniform(-8, 2))
         ctx.count(f'search-condcov:{kind}')
-        ok = ctx.run(condition_covariance_formula, psd=phi, gamma=gamma, hermitian_psd=(kind != 'general'))
+        memory = 'c' if rng.random() < 0.5 else str(rng.choice(gen.MEMORY_KINDS))
+        ctx.count(f'search-condcov-memory:{memory}')
+        ok = ctx.run(condition_covariance_formula, psd=phi, gamma=gamma, hermitian_psd=(kind != 'general'), memory=memory)
         if i == 0:
             ctx.sample({'oracle': 'condition_covariance_formula', 'shape': list(phi.shape), 'gamma': gamma, 'kind': kind,
                         'held': ok})
